@@ -230,6 +230,14 @@ func (g *Gateway) handleLegacyProtocol(w http.ResponseWriter, r *http.Request, t
 			handler := NewProcessor(g, t)
 			RegisterTunnel(t, handler)
 			defer RemoveTunnel(t)
+			// when the client to server channel ends the tunnel is over, release the
+			// server to client channel and forget the connection id
+			defer func() {
+				c.Delete(t.RDGId)
+				if t.transportOut != nil {
+					t.transportOut.Close()
+				}
+			}()
 			handler.Process(r.Context())
 		}
 	}
